@@ -147,15 +147,52 @@ def _classify(got, names):
     return "field-order", "order %r" % g
 
 
+ORIGINS = ["new", "empty-str", "empty-list", "blank-lines", "empty-bytes", "parsed", "parsed-lines",
+           "iter", "copy", "mapping", "dsc-empty"]
+
+
+def make_paragraph(fields, origin):
+    """The paragraph the value is assigned into, obtained the way ``origin`` says: the property
+    speaks of *any* paragraph, however the object came to be."""
+    def fill(d):
+        for n, v in fields:
+            d[n] = G.value_string(v)     # C02 domain: must be accepted; a ValueError here escapes
+        return d
+    if origin == "empty-str":
+        return fill(Deb822(""))
+    if origin == "empty-list":
+        return fill(Deb822([]))
+    if origin == "blank-lines":
+        return fill(Deb822("\n\n"))
+    if origin == "empty-bytes":
+        return fill(Deb822(io.BytesIO(b"")))
+    if origin == "dsc-empty":
+        from debian.deb822 import Dsc
+        return fill(Dsc(""))
+    base = fill(Deb822())
+    if origin == "parsed":
+        return Deb822(base.dump())
+    if origin == "parsed-lines":
+        return Deb822(base.dump().split("\n"))
+    if origin == "iter":
+        got = list(Deb822.iter_paragraphs(base.dump()))
+        if len(got) != 1:
+            raise Violation("origin-parse", "iter_paragraphs of %s gave %d paragraphs" % (short(base.dump()), len(got)))
+        return got[0]
+    if origin == "copy":
+        return base.copy()
+    if origin == "mapping":
+        return Deb822(base)
+    return base
+
+
 def check(case):
     if not (isinstance(case, dict) and G.valid_fields(case.get("fields")) and G.valid_name(case.get("key"))
             and in_domain(case.get("value"))):
         return (False, ("invalid-or-out-of-domain-case-skipped",))
     fields, key, value = case["fields"], case["key"], case["value"]
 
-    d = Deb822()
-    for n, v in fields:
-        d[n] = G.value_string(v)         # C02 domain: must be accepted; a ValueError here escapes
+    d = make_paragraph(fields, case.get("origin", "new"))
     before = [[k, v] for k, v in d.items()]
     names_before = [f[0] for f in fields]
     lower = [n.lower() for n in names_before]
@@ -170,7 +207,7 @@ def check(case):
         expect_lower = lower + [key.lower()]
 
     verdict = rule(value)
-    labels = ["target:" + target]
+    labels = ["target:" + target, "origin:" + str(case.get("origin", "new"))]
     if "\r" in value:
         labels.append("cr-present")
     if any(len(f[1][1]) > 0 for f in fields):
@@ -252,14 +289,19 @@ AKZ = [["A", ["1", []]], ["K", ["2", [" 2b"]]], ["Z", ["3", ["\t3b", " 3c: d"]]]
 
 def enum_cases(maxlen):
     def gen():
+        k = 0
         for n in range(0, maxlen + 1):
             for seq in itertools.product(ENUM_CHARS, repeat=n):
                 v = "".join(seq)
-                yield {"fields": AKZ, "key": "K", "value": v}
+                k += 1
+                # the origin of the paragraph object cycles (coprime with the alphabet size), and
+                # every value of up to 2 characters meets every origin
+                for o in (ORIGINS if n <= 2 else [ORIGINS[k % len(ORIGINS)]]):
+                    yield {"fields": AKZ, "key": "K", "value": v, "origin": o}
                 if n < maxlen:
-                    yield {"fields": AKZ, "key": "A", "value": v}
-                    yield {"fields": AKZ, "key": "Z", "value": v}
-                    yield {"fields": AKZ, "key": "New", "value": v}
+                    yield {"fields": AKZ, "key": "A", "value": v, "origin": ORIGINS[(k + 3) % len(ORIGINS)]}
+                    yield {"fields": AKZ, "key": "Z", "value": v, "origin": ORIGINS[(k + 5) % len(ORIGINS)]}
+                    yield {"fields": AKZ, "key": "New", "value": v, "origin": ORIGINS[(k + 7) % len(ORIGINS)]}
     return gen
 
 
@@ -324,7 +366,7 @@ def gen_case(draw):
         key = "New-Field"
         if key.lower() in [n.lower() for n in names]:
             key = "New-Field-2"
-    return {"fields": fields, "key": key, "value": draw(any_value)}
+    return {"fields": fields, "key": key, "value": draw(any_value), "origin": draw(st.sampled_from(ORIGINS))}
 
 
 def sources(tier):
